@@ -322,6 +322,8 @@ func namesTables(c *Ctx, required []string, exact bool, withDefaults bool) {
 			[]importSpec{{name: "kq", path: "example.test/unused/kq0"}, {name: "kr", path: "example.test/unused/kr0"}}, nil},
 		{"an unnamed value whose default name is the name a source file gives to a package no signature mentions", []addStep{{"", func() ktype { return kNamedIn(kpath("kf"), "kf", "Kq", nil, nil) }, ""}}, nil,
 			[]importSpec{{name: "kq", path: "example.test/unused/kq0"}}, nil},
+		// the mock's own package is never imported: a parameter spelled like it collides with nothing
+		{key: "a parameter written like the mock's own package, then a parameter of a type of that package", steps: []addStep{{rwSrcName, intF, ""}, {"x", func() ktype { return kNamedIn(rwSrcPath, rwSrcName, "Own", nil, nil) }, ""}}, keep: []int{0, 1}},
 		// a rename made behind the back of an earlier variable lands on a name that is still free (D20)
 		{key: "a parameter written kaMoqParam, a parameter written ka, then a type of a package named ka", steps: []addStep{{"kaMoqParam", intF, ""}, {"ka", intF, ""}, {"x", leaf("ka"), ""}}, keep: []int{0, 2}},
 		// a written name does not hide a type of the destination package that the same method spells bare (D19)
